@@ -220,8 +220,9 @@ func (h *hist) read(hid int) []string {
 		// guard against this goroutine being descheduled between arming the deadline and the select.
 		d := time.Duration(2<<attempt) * time.Millisecond
 		if cs.rsend == 0 {
-			d = 500 * time.Microsecond
-			attempt = 2
+			// nothing can be delivered: only "closed" or "none" are possible, and "closed" is immediate;
+			// still retry, because a select entered after the deadline picks either ready case
+			d = time.Duration(500<<attempt) * time.Microsecond
 		}
 		_ = pc.SetReadDeadline(time.Now().Add(d))
 		n, addr, err := pc.ReadFrom(buf)
